@@ -96,7 +96,12 @@ def evaluate(case, out):
         return
     # ---- preparation
     try:
-        man, man_cards, ph = V.prep_manifest(_manifest(case), bound, case["n_cvrs"])
+        df = _manifest(case)
+        if dom and len(sizes) % 2 == 0:
+            # the same manifest object was prepared before, against a larger card bound (the bound was revised since)
+            V.prep_manifest(df, bound + 3, case["n_cvrs"])
+            out.cls("manifest-prepared-before")
+        man, man_cards, ph = V.prep_manifest(df, bound, case["n_cvrs"])
     except Exception as e:  # noqa
         out.lib_exception("prep_manifest", e)
         return
